@@ -149,7 +149,7 @@ func (ex *Exec) readContent(elem types.Type, ct symContent, idx *Term) Value {
 // readDense reads cells[idx] for a possibly symbolic idx (ite chain); the
 // caller has already established idx < len(cells).
 func (ex *Exec) readDense(cells []Value, idx *Term, elem types.Type) Value {
-	if k, ok := constInt(idx); ok {
+	if k, ok := ex.constOf(idx); ok {
 		if k < 0 || int(k) >= len(cells) {
 			// out of the assumed range; value is irrelevant under the bounds check
 			return ex.zero(elem)
@@ -184,17 +184,19 @@ func (ex *Exec) loadElem(a *ArrObj, idx *Term) Value {
 // storeElem writes element idx of a (bounds already checked).
 func (ex *Exec) storeElem(a *ArrObj, idx *Term, v Value) {
 	if a.isDense() {
-		if k, ok := constInt(idx); ok {
+		if k, ok := ex.constOf(idx); ok {
 			storeInto(&a.Dense[k], v)
 			return
 		}
+		merged := make([]Value, len(a.Dense))
 		for i := range a.Dense {
 			m, ok := ex.merge(ex.C.Eq(idx, ex.i64(int64(i))), v, a.Dense[i])
 			if !ok {
 				panic(needConcretize{idx})
 			}
-			a.Dense[i] = m
+			merged[i] = m
 		}
+		copy(a.Dense, merged)
 		return
 	}
 	a.Content = &symStore{prev: a.Content, idx: idx, val: copyVal(v)}
